@@ -402,21 +402,28 @@ func (g *ribGen) retargetCase() RCase {
 	nis := []int{1, 2, 3}
 	// in some instances group 2 names group 1 as its backup (a backup is not a counted reference: the groups can be
 	// deleted in any order, and a flush releases what the backup group itself references like that of any group)
+	// ... and in some both groups share a third group as their backup (a flush meets it twice)
 	bk := map[int]uint64{}
 	for _, n := range nis {
-		if g.r.Chance(1, 2) {
+		switch g.r.Intn(4) {
+		case 0, 1:
 			bk[n] = 1
+		case 2:
+			bk[n] = 3
 		}
 	}
 	grp := func(n int, gi uint64) drv.OpSpec {
 		o := drv.OpSpec{NI: n, Kind: "ADD", T: "nhg", Key: gi, NHs: [][2]uint64{{1, 1}}}
-		if gi == 2 {
+		if (gi == 2 && bk[n] == 1) || (gi <= 2 && bk[n] == 3) {
 			o.Bk = bk[n]
 		}
 		return o
 	}
 	for _, n := range nis {
 		add("add", drv.OpSpec{NI: n, Kind: "ADD", T: "nh", Key: 1})
+		if bk[n] == 3 {
+			add("add", grp(n, 3))
+		}
 		for gi := uint64(1); gi <= 2; gi++ {
 			add("add", grp(n, gi))
 		}
